@@ -13,7 +13,7 @@ from props import c08
 PROP = "C05"
 MODEL_TARGETS = ["Corr/ReadShow.vo"]
 THEOREMS = ["C05_cut", "C05_bodies", "C05_type_data", "C05_type_other", "C05_type_header", "C05_steering_only_V_W", "C05_steering_W_only_null", "C05_steering_V_not_null", "C05_route_custom_frame",
-            "C05_section_type_current", "C05_route_current"]
+            "C05_section_type_current", "C05_route_current", "C05_steering_current"]
 ASSUMPTIONS = [
     "LAS 1.2/2.0 titles only (LAS 3.0 *_Data/_Definition/_Parameter section handling is outside the model)",
     "str.upper/lower modelled for ASCII; generated mnemonics and titles are ASCII",
